@@ -75,7 +75,7 @@ QUICK = dict(cases=800, workers=2, timecap=45)
 THOROUGH = dict(cases=40000, workers=16, timecap=600)
 REQUIRED = {"quad_xsec": 60, "quad_volume": 4, "quad_uniform": 8, "tiling_lists": 40, "bins": 2000, "sum": 40,
             "sum_unity": 20, "density": 300, "hist_steps": 300, "hist_energy_density": 1000, "hist_geometry": 100,
-            "hist_psd": 1000, "reported": 1500, "width": 60, "formula": 2000, "construct_paths": 300}
+            "hist_psd": 1000, "reported": 1500, "width": 60, "formula": 2000, "construct_paths": 300, "shape": 3000, "placement": 600}
 
 C_LIGHT = 299792458.0      # m/s, exact by SI definition (own constant, not imported from cherab)
 PROFILES = ("UniformEnergyDensity", "ConstantBivariateGaussian", "TrivariateGaussian", "GaussianBeamAxisymmetric")
@@ -149,6 +149,16 @@ def _draw_length(rng, radius):
     if u < 0.9:
         return float(d * _lu(rng, 0, 2.3))
     return _nice(rng, d * _lu(rng, 0, 2.3))
+
+
+def _same_count_length(rng, radius, length):
+    """another laser length with the same number of segments int(length // (2 radius)) (None if there is no room)"""
+    n = int(length // (2 * radius))
+    for _ in range(4):
+        v = float(2 * radius * (n + rng.uniform(0.02, 0.98)))
+        if v > 0 and int(v // (2 * radius)) == n and v != length:
+            return v
+    return None
 
 
 def _draw_zpos(rng, length):
@@ -330,14 +340,22 @@ def _gen_history(rng, tier="quick"):
         P = _draw_profile(rng, cls)
         init = dict(P)
         names = list(PROFILE_PARAMS[cls]) + ["polarization"]
+        attach = bool(rng.random() < 0.8)
+        if attach:
+            names += ["reassign_same", "laser_length"]
         before = {}
         for _ in range(nops):
             n = names[int(rng.integers(len(names)))]
             u = rng.random()
+            if n == "reassign_same":
+                ops.append([n, None])                      # laser.laser_profile = laser.laser_profile
+                continue
             if u < 0.15:
                 v = P[n]                                   # no-op assignment: the value the attribute already has
             elif u < 0.3 and n in before:
                 v = before[n]                              # A -> B -> A
+            elif n == "laser_length" and u < 0.6:
+                v = _same_count_length(rng, P["laser_radius"], P["laser_length"]) or _draw_param(rng, n, P)
             else:
                 v = _draw_param(rng, n, P)
             if n == "laser_radius" and P["laser_length"] / (2 * v) > 400:
@@ -345,7 +363,7 @@ def _gen_history(rng, tier="quick"):
             before[n] = P[n]
             P[n] = v
             ops.append([n, v])
-        return dict(kind="history", cls=cls, init=init, ops=ops, attach=bool(rng.random() < 0.8),
+        return dict(kind="history", cls=cls, init=init, ops=ops, attach=attach,
                     via=["direct", "omit"][int(rng.integers(2))])
     cls = SPECTRA[ci - 4]
     mn, mx = _draw_range(rng)
@@ -384,12 +402,52 @@ def _gen_history(rng, tier="quick"):
     return dict(kind="history", cls=cls, init=init, ops=ops, attach=False, via="direct")
 
 
+def _gen_laser(rng):
+    """a Laser node driven through profile replacement / re-assignment and geometry setters"""
+    r0 = _nice(rng, _lu(rng, -2.5, -0.7))
+    n0 = int(rng.integers(1, 13)) if rng.random() < 0.85 else 0
+    profs = []
+    for k in range(int(rng.integers(2, 4))):
+        cls = PROFILES[int(rng.integers(4))]
+        r = r0 if k == 0 else _nice(rng, _lu(rng, -2.5, -0.7))
+        n = n0 if (k == 0 or rng.random() < 0.6) else int(rng.integers(0, 13))      # equal / different segment count
+        P = dict(_FIXED_PROFILE[cls], laser_radius=float(r), laser_length=float(2 * r * (n + rng.uniform(0.02, 0.98))))
+        profs.append(dict(cls=cls, params=P))
+    cur = 0
+    R = [p["params"]["laser_radius"] for p in profs]
+    L = [p["params"]["laser_length"] for p in profs]
+    ops = []
+    for _ in range(int(rng.integers(2, 11))):
+        u = rng.random()
+        if u < 0.35:
+            v = _same_count_length(rng, R[cur], L[cur])
+            if v is None:
+                continue
+            L[cur] = v
+            ops.append(["set", "laser_length", v])
+        elif u < 0.5:
+            L[cur] = float(2 * R[cur] * (int(rng.integers(0, 13)) + rng.uniform(0.02, 0.98)))
+            ops.append(["set", "laser_length", L[cur]])
+        elif u < 0.62:
+            v = _nice(rng, max(L[cur] / 60.0, _lu(rng, -2.5, -0.7)))
+            R[cur] = float(v)
+            ops.append(["set", "laser_radius", R[cur]])
+        elif u < 0.8:
+            ops.append(["reassign_same"])
+        else:
+            cur = int(rng.integers(len(profs)))
+            ops.append(["replace", cur])
+    return dict(kind="laser", profiles=profs, ops=ops)
+
+
 def gen_case(rng, tier):
     u = rng.random()
     if u < 0.3:
         return _gen_quad(rng)
-    if u < 0.45:
+    if u < 0.4:
         return _gen_tiling(rng)
+    if u < 0.47:
+        return _gen_laser(rng)
     if u < 0.72:
         return _gen_spectrum(rng)
     return _gen_history(rng, tier)
@@ -435,6 +493,22 @@ def fixed_cases(tier):
                             ops=[[n, inits[cls][n]], [n, new[n]], [n, inits[cls][n]], [n, inits[cls][n]]]))
             out.append(dict(kind="history", cls=cls, init=dict(DEFAULTS[cls]), attach=True, via="omit",
                             ops=[[n, DEFAULTS[cls][n]], [n, new[n]], [n, DEFAULTS[cls][n]]]))
+    # Laser node: length / radius changes that keep and that change the segment count, re-assigning the same profile
+    # object, replacing the profile by one with equal / different segment count
+    def lp(cls, r, L):
+        return dict(cls=cls, params=dict(_FIXED_PROFILE[cls], laser_radius=r, laser_length=L))
+    A, B, C_, D = lp("ConstantBivariateGaussian", 0.05, 0.52), lp("GaussianBeamAxisymmetric", 0.03, 0.33), \
+        lp("UniformEnergyDensity", 0.05, 0.27), lp("TrivariateGaussian", 0.1, 0.15)
+    for ops in ([["set", "laser_length", 0.57], ["set", "laser_length", 0.5], ["set", "laser_length", 0.93]],
+                [["reassign_same"], ["set", "laser_length", 0.57], ["set", "laser_length", 1.21], ["set", "laser_radius", 0.02]],
+                [["replace", 1], ["replace", 0], ["replace", 2], ["replace", 3], ["replace", 0]],
+                [["set", "laser_radius", 0.051], ["replace", 1], ["set", "laser_length", 0.31], ["reassign_same"],
+                 ["set", "laser_length", 0.35], ["replace", 3], ["set", "laser_length", 0.19], ["set", "laser_length", 0.1]]):
+        out.append(dict(kind="laser", profiles=[A, B, C_, D], ops=ops))
+    for cls in PROFILES:
+        out.append(dict(kind="history", cls=cls, init=inits[cls], attach=True, via="direct",
+                        ops=[["laser_length", inits[cls]["laser_length"] * 1.004], ["reassign_same", None],
+                             ["laser_length", inits[cls]["laser_length"] * 0.997], ["laser_radius", inits[cls]["laser_radius"] * 1.001]]))
     SC = dict(min_wavelength=1059.0, max_wavelength=1069.0, bins=20)
     SG = dict(SC, mean=1064.0, stddev=0.8)
     for n, v in (("min_wavelength", 1061.5), ("max_wavelength", 1066.25), ("bins", 7)):
@@ -891,6 +965,86 @@ def _judge_tiling(ctx, lst, radius, length, via):
     return ok
 
 
+def _placement_reason(lst, radius, length):
+    """why the segments (placement read from each segment's transform) do not tile [0, length]; None if they do"""
+    from raysect.primitive import Cylinder
+    if not (isinstance(lst, list) and lst and all(isinstance(s, Cylinder) for s in lst)):
+        return "no cylinder segments"
+    segs = sorted(_segments(lst))
+    z0 = np.array([s[0] for s in segs])
+    h = np.array([s[1] for s in segs])
+    tol = TILE * length
+    if not all(s[3] for s in segs):
+        return "segment transform is not a translation along z"
+    if not np.all(h > 0):
+        return "non-positive segment height"
+    if not np.all(np.abs(np.array([s[2] for s in segs]) - radius) <= 1e-15 * radius):
+        return "segment radius differs from laser_radius"
+    if not abs(z0[0]) <= tol:
+        return "first segment does not start at 0"
+    if len(segs) > 1 and not np.all(np.abs(z0[:-1] + h[:-1] - z0[1:]) <= tol):
+        return "consecutive segments overlap or leave a gap"
+    if not abs(z0[-1] + h[-1] - length) <= tol:
+        return "last segment does not end at laser_length"
+    return None
+
+
+def _judge_placement(ctx, laser, radius, length, op, **detail):
+    geo = laser.get_geometry()
+    why = _placement_reason(geo, radius, length)
+    if why is None and not (all(s.parent is laser for s in geo) and len(laser.children) == len(geo)):
+        why = "the Laser node's children are not exactly the segments"
+    ctx.mon("placement")
+    if why is not None:
+        ctx.viol("tiling:segment-placement-after:" + op,
+                 "after this operation the Laser's segments (start / end read from their transforms) do not tile "
+                 "[0, laser_length] of its current profile exactly once", why=why, radius=radius, length=length,
+                 segments=[list(s[:3]) for s in sorted(_segments(geo))][:6] if isinstance(geo, list) else None, **detail)
+    return why is None
+
+
+def _run_laser(case, ctx):
+    from cherab.core.laser import Laser
+    ctx.cls("laser-history")
+    profs = case["profiles"]
+    params = [dict(p["params"]) for p in profs]
+    objs = [_mk_profile(p["cls"], q) for p, q in zip(profs, params)]
+    cur = 0
+    laser = Laser()
+    laser.laser_profile = objs[0]
+    done = ["attach"]
+    _judge_placement(ctx, laser, params[0]["laser_radius"], params[0]["laser_length"], "attach")
+    for op in case["ops"]:
+        n_before = len(laser.get_geometry())
+        if op[0] == "set":
+            setattr(objs[cur], op[1], op[2])
+            params[cur][op[1]] = op[2]
+            label = op[1]
+        elif op[0] == "reassign_same":
+            laser.laser_profile = laser.laser_profile
+            label = "reassign-same-profile"
+        else:
+            cur = op[1]
+            laser.laser_profile = objs[cur]
+            label = "replace-profile"
+        R, L = params[cur]["laser_radius"], params[cur]["laser_length"]
+        n_want = max(1, int(L // (2 * R)))
+        ctx.cls("laser-op:%s:%s" % (label, "same-count" if n_want == n_before else "other-count"))
+        ok = _judge_placement(ctx, laser, R, L, label, history=done[-6:])
+        # a brand-new Laser with a brand-new profile of the same parameters
+        flaser = Laser()
+        flaser.laser_profile = _mk_profile(profs[cur]["cls"], params[cur])
+        a = np.array(sorted(_segments(laser.get_geometry())), dtype=float).ravel()
+        b = np.array(sorted(_segments(flaser.get_geometry())), dtype=float).ravel()
+        bad, g, w, t = _cmp(ctx, a, b, 1e-12 * np.abs(b) + 1e-300, "hist_geometry")
+        if ok and (bad is None or bad.any()):
+            ctx.viol("tiling:laser-geometry-differs-from-fresh-laser-after:" + label,
+                     "after this operation the Laser's segments differ from those of a freshly built Laser with an equal profile",
+                     history=done[-6:], n_live=len(a) // 4, n_fresh=len(b) // 4)
+        done.append(label)
+        ctx.nontrivial()
+
+
 def _run_tiling(case, ctx):
     radius, length, how = case["radius"], case["length"], case["how"]
     ctx.cls("tiling:" + case["tclass"])
@@ -1173,15 +1327,22 @@ def _run_history(case, ctx):
         setter = None
         if name is not None:
             # apply to the live object through the public API, and to the model
-            was_noop = bool(value == M[name])
+            was_noop = bool(name != "reassign_same" and value == M[name])
             kinds.add("noop" if was_noop else "change")
-            if name == "polarization":
+            if name == "reassign_same":
+                if laser is not None:
+                    laser.laser_profile = laser.laser_profile
+                setter = "reassign_same"
+            elif name == "polarization":
                 live.set_polarization(Vector3D(*value))
                 setter = "set_polarization"
             else:
                 setattr(live, name, value)
                 setter = name
-            M[name] = value
+            if name != "reassign_same":
+                M[name] = value
+        if laser is not None:
+            _judge_placement(ctx, laser, M["laser_radius"], M["laser_length"], setter or "attach")
         # brand-new objects (and Laser nodes) from the modelled parameters: direct and through the setters
         if is_prof:
             objs = [_mk_profile(cls, M, via, ctx), _mk_profile(cls, M, "setters")]
@@ -1236,5 +1397,7 @@ def run_case(case, ctx):
         _run_spectrum(case, ctx)
     elif kind == "history":
         _run_history(case, ctx)
+    elif kind == "laser":
+        _run_laser(case, ctx)
     else:
         raise ValueError("unknown case kind %r" % kind)
